@@ -27,7 +27,7 @@ func HookKinds() []string {
 	return append(append([]string{}, hookKinds...), "extendUnexported", "extendUnexportedCtx")
 }
 
-var hookKinds = []string{"extend", "extendExt", "extendErr", "extendCtx", "extendConv", "extendRegex", "method", "methodErr", "mapFunc", "mapFuncErr", "mapNoSource", "underlying", "underlyingMethod", "extendErrCtx", "extendSame", "extendExtCtxRegex", "delegate", "delegateErr", "mapWhole", "mapWholePtr", "underlyingErr", "basicErr", "srcMethodCtx", "srcMethodErr", "dualCtx", "underlyingSame"}
+var hookKinds = []string{"extend", "extendExt", "extendErr", "extendCtx", "extendConv", "extendRegex", "method", "methodErr", "mapFunc", "mapFuncErr", "mapNoSource", "underlying", "underlyingMethod", "extendErrCtx", "extendSame", "extendExtCtxRegex", "delegate", "delegateErr", "mapWhole", "mapWholePtr", "underlyingErr", "basicErr", "srcMethodCtx", "srcMethodErr", "dualCtx", "underlyingSame", "sameBasic"}
 
 // CustomCase builds one case mixing automatic rules with custom functions.
 func CustomCase(r *rand.Rand, name string, o CustomOpts) *Case {
@@ -61,6 +61,7 @@ func CustomCase(r *rand.Rand, name string, o CustomOpts) *Case {
 	var declared []*Method
 	needCtxA, needCtxB, fallible, underlying := false, false, false, false
 	underlyingSame := false
+	sameBasicDone := false
 	useZero := false
 	tyMethods := ""
 	underlyingFlag := false
@@ -410,6 +411,48 @@ func CustomCase(r *rand.Rand, name string, o CustomOpts) *Case {
 				sS.Fields = append(sS.Fields, F(f, Named(nf)), F(f+"L", Slice(Named(nf))), F(f+"P", Ptr(Named(nf))))
 				tS.Fields = append(tS.Fields, F(f, Named(nf)), F(f+"L", Slice(Named(nf))), F(f+"P", Ptr(Named(nf))))
 			}
+		case "sameBasic":
+			// an extend function between one and the same predeclared type: it is used wherever that type is
+			// converted - fields, elements, pointees, map values AND map keys (xor is a bijection: keys stay distinct)
+			fn := fmt.Sprintf("I16Stamp%d", i)
+			if !sameBasicDone {
+				sameBasicDone = true
+				fmt.Fprintf(&funcsLocal, "func %s(v int16) int16 { return v ^ 0x5555 }\n\n", fn)
+				convLines = append(convLines, "extend "+fn)
+				specFuncs = append(specFuncs, &vref.FuncSpec{Key: "fn:" + fn, Kind: "extend", Roles: []string{"source"}})
+				callables["fn:"+fn] = "conv." + fn
+				f := fmt.Sprintf("SB%d", i)
+				sbpos := []string{"V", "L", "K", "MV", "P", "KK"}
+				r.Shuffle(len(sbpos), func(a, b int) { sbpos[a], sbpos[b] = sbpos[b], sbpos[a] })
+				for _, bp := range append([]string{"K"}, sbpos[:1+r.Intn(3)]...) {
+					var ft *Type
+					switch bp {
+					case "V":
+						ft = Basic("int16")
+					case "L":
+						ft = Slice(Basic("int16"))
+					case "K":
+						ft = Map(Basic("int16"), Basic("string"))
+					case "MV":
+						ft = Map(Basic("string"), Basic("int16"))
+					case "P":
+						ft = Ptr(Basic("int16"))
+					default:
+						ft = Map(Basic("int16"), Map(Basic("int16"), Slice(Basic("int16"))))
+					}
+					dup := false
+					for _, ef := range sS.Fields {
+						if ef.Name == f+bp {
+							dup = true
+						}
+					}
+					if dup {
+						continue
+					}
+					sS.Fields = append(sS.Fields, F(f+bp, ft))
+					tS.Fields = append(tS.Fields, F(f+bp, ft))
+				}
+			}
 		case "underlying", "underlyingErr":
 			sid := decl(fmt.Sprintf("SID%d", i), Basic("int"))
 			tid := decl(fmt.Sprintf("TID%d", i), Basic("string"))
@@ -460,7 +503,7 @@ func CustomCase(r *rand.Rand, name string, o CustomOpts) *Case {
 				}
 			}
 		}
-		if strings.HasPrefix(kind, "map") || strings.HasPrefix(kind, "underlying") || kind == "basicErr" || strings.HasPrefix(kind, "srcMethod") {
+		if strings.HasPrefix(kind, "map") || strings.HasPrefix(kind, "underlying") || kind == "basicErr" || kind == "sameBasic" || strings.HasPrefix(kind, "srcMethod") {
 			continue
 		}
 		// positions of the pair inside S / T
